@@ -82,6 +82,7 @@ def check_type(P, ctx, T):
             lib, pattern, failtest = DELEG[m]
             cs = [(n, c) for n in g.live() if n['expr'] is not None for c in ir.calls(n['expr']) if ir.callee_name(c) == lib]
             key = '%s.%s' % (T, m)
+            in_cond = bool(cs) and cs[0][0]['kind'] == 'cond'
             ok = len(cs) == 1
             detail = None
             if ok:
@@ -103,9 +104,10 @@ def check_type(P, ctx, T):
                 res = None
                 if n.get('decl'):
                     res = ('local', n['decl']['name'])
-                conds = [x for x in g.live() if x['kind'] == 'cond' and res is not None and util.mentions(ir.canon(x['expr']), lambda y: y == res)]
+                conds = [x for x in g.live() if x['kind'] == 'cond' and ((res is not None and util.mentions(ir.canon(x['expr']), lambda y: y == res)) or
+                                                                       any(ir.callee_name(c2) == lib for c2 in ir.calls(x['expr'])))]
                 thr = False
-                after = g.reach_from(n['id'])
+                after = g.reach_from(n['id']) | {n['id']}
                 for t in g.live():
                     if t['kind'] == 'term' and t['why'] == ('throw', 'IOError') and t['id'] in after and conds and \
                             g.must_pass(t['id'], [x['id'] for x in conds]):
